@@ -126,6 +126,7 @@ def _verify_instance(eng: Engine, c: Contract, src: source.FuncSrc, prop: str, i
 		st.env[k] = lc
 	eng.oblige(fn, 'cover:requires', st, None, ' and '.join(c.requires) or 'True', src.lineno, expect='sat')
 	old = st.copy()
+	fn.entry = old  # type: ignore[attr-defined]
 	run_hints(eng, fn, st, c.hints_entry)
 	exact = {e: cond for e, cond in c.raises.items() if cond is not None}
 	n_normal = 0
@@ -138,6 +139,23 @@ def _verify_instance(eng: Engine, c: Contract, src: source.FuncSrc, prop: str, i
 			run_hints(eng, fn, post, c.hints_exit, old)
 			for cl, t in clause_terms(eng, fn, post, c.ensures, old):
 				eng.oblige(fn, 'post', post, t, cl, src.lineno)
+			# frame: record-typed parameters may change only in the fields listed under `modifies`
+			for pname, pty in ptys.items():
+				if isinstance(pty, TRec) and pname in sx.env and isinstance(sx.env[pname].ty, TRec):
+					allowed_f = set()
+					for m in c.modifies:
+						if m == pname:
+							allowed_f = set(pty.fnames())
+						elif m.startswith(pname + '.'):
+							fld = m[len(pname) + 1:]
+							allowed_f.add(fld if fld in pty.fnames() else source.mangle(fn.cname, fld))
+					for f in pty.fnames():
+						if f in allowed_f:
+							continue
+						ev2 = Ev(eng, fn, post, Oracle([]), 'spec', old)
+						a_ = Val(pty.fty(f), pty.get(sx.env[pname].term, f))
+						b_ = Val(pty.fty(f), pty.get(old.env[pname].term, f))
+						eng.oblige(fn, 'frame', post, ev2.eq(a_, b_), f'{pname}.{f} unchanged (not in modifies)', src.lineno)
 			for e, cond in exact.items():
 				(cl, t), = clause_terms(eng, fn, old, [cond])
 				eng.oblige(fn, f'raises-iff:{e}', State(old.env, sx.pc), z3.Not(t), f'normal return implies not ({cond})', src.lineno)
